@@ -82,7 +82,9 @@ fn space_case() -> BoxedStrategy<SpaceCase> {
                         if may_be_empty && !on {
                             return String::new();
                         }
-                        (0..*n).map(|k| spaces[(pick(*r, spaces.len()) + usize::from(k)) % spaces.len()]).collect()
+                        // rarely a very long run: the 8/16-bit boundaries of anything that counts skipped characters
+                        let len: usize = if *r % 128 == 5 { [255usize, 256, 257, 65_535, 65_536, 65_537, 131_072, 70_000][usize::from(*r / 128) % 8] } else { usize::from(*n) };
+                        (0..len).map(|k| spaces[(pick(*r, spaces.len()) + k) % spaces.len()]).collect()
                     };
                     let mut v = vec![mk(&rv[0], true)];
                     for g in 0..ngaps {
@@ -135,7 +137,7 @@ impl Sub for Respacing {
     }
     fn rule(&self) -> String {
         "dictionaries meeting the C12 precondition by construction (SPACE assigned alone to 1-3 space code points, no other range mentions it, no surface contains a space) × \
-         1-5 non-space chunks with fixed gap positions × 4 re-spacings (run lengths 1-4, mixed space characters, optional leading/trailing runs); oracle (metamorphic + reference): \
+         1-5 non-space chunks with fixed gap positions × 4 re-spacings (run lengths 1-4 and, in about one run of 128, 255/256/257/65535/65536/65537/70000/131072; mixed space characters, optional leading/trailing runs); oracle (metamorphic + reference): \
          all variants yield the same (surface, feature, word cost, ids, total cost) list — exact under a unique optimum, cost-only otherwise; each satisfies the C01 predicate; the \
          total equals the reference Viterbi optimum with gap skipping; spaces-only ⇒ no tokens; non-trivial = ≥2 chunks with a gap, an unknown token adjacent to a gap and a non-zero \
          connection cost across a gap; distinct = hash(files, chunks, variants)".into()
@@ -209,10 +211,10 @@ impl Sub for Respacing {
                 w.tokenize();
                 tokens_of(&w)
             })
-            .map_err(|p| format!("tokenize(spaces only {spaces_only:?}): {p}"))?;
+            .map_err(|p| format!("tokenize(spaces only, {} characters): {p}", spaces_only.chars().count()))?;
             ctx.eval();
             if !toks.is_empty() {
-                return Err(format!("a sentence of spaces only ({spaces_only:?}) yields {} tokens", toks.len()));
+                return Err(format!("a sentence of spaces only ({} characters) yields {} tokens", spaces_only.chars().count(), toks.len()));
             }
         }
         ctx.label(case.spec.conn.kind());
@@ -221,8 +223,15 @@ impl Sub for Respacing {
         if nontrivial {
             ctx.nontrivial(&(&files, &case.user, &case.chunks, &case.variants));
         }
-        ctx.sample(|| serde_json::json!({"chunks": case.chunks, "sep_after": case.sep_after,
-            "variants": case.variants.iter().map(|v| assemble_variant(case, v)).collect::<Vec<_>>(), "char.def": files.chardef}));
+        let longest_run = case.variants.iter().flatten().map(|r| r.chars().count()).max().unwrap_or(0);
+        ctx.label_if(longest_run >= 255, "space_run_ge_255");
+        ctx.label_if(longest_run >= 65_536, "space_run_ge_65536");
+        ctx.sample(|| {
+            let abbreviate = |s: String| if s.chars().count() > 200 { format!("{}… ({} characters)", s.chars().take(60).collect::<String>(), s.chars().count()) } else { s };
+            serde_json::json!({"chunks": case.chunks, "sep_after": case.sep_after,
+            "variants": case.variants.iter().map(|v| abbreviate(assemble_variant(case, v))).collect::<Vec<_>>(),
+            "run_lengths": case.variants.iter().map(|v| v.iter().map(|r| r.chars().count()).collect::<Vec<_>>()).collect::<Vec<_>>(), "char.def": files.chardef})
+        });
         Ok(())
     }
 }
